@@ -39,6 +39,9 @@ var repairHarness = boundedHarness{prop: "C12", subject: "gts.Repair", pos: "fea
 var locTextHarness = boundedHarness{prop: "C06", subject: "gts.AsLocation", pos: "location.go", file: "location_bounded_test.go", pkgDir: ".", test: "TestVerifBoundedLocationText",
 	clauses: []string{"printed-location-parses", "print-parse-roundtrip", "space-after-comma", "legacy-3prime-marker"}}
 
+var modTextHarness = boundedHarness{prop: "C08", subject: "gts.AsModifier", pos: "modifier.go", file: "modifier_bounded_test.go", pkgDir: ".", test: "TestVerifBoundedModifierText",
+	clauses: []string{"printed-modifier-parses", "modifier-print-parse-roundtrip", "locator-is-region-resized"}}
+
 var cliHarness = boundedHarness{prop: "C15", subject: "main.commands", pos: "cmd/gts", file: "cli_bounded_test.go", pkgDir: "cmd/gts", test: "TestVerifBoundedCLI",
 	clauses: []string{"delete-removes-union", "delete-removes-union-e", "insert-once-per-site", "insert-once-per-site-e", "infix-once-per-site", "rotate-first-site-to-zero", "split-pieces-tile-input", "extract-each-site-once-in-order", "extract-v-unlocated-stretches"}}
 
